@@ -345,6 +345,7 @@ class FlowG:
         self.helpers = []        # (name, arity)
         self.glob = []           # module-level int constants
         self.loopvars = 0
+        self.scopes = 0
 
     def fresh(self):
         self.n += 1
@@ -413,10 +414,28 @@ class FlowG:
         rng = self.rng
         lines = []
         env = list(env)
-        ro = set(ctx['params'])
+        ro = self.ro(ctx)
         for _ in range(n if n is not None else rng.randint(2, 4)):
+            if in_loop and rng.random() < 0.2:
+                # a jump of the innermost enclosing loop at ANY position of a loop body (also behind a nested
+                # loop, inside nested if / try blocks)
+                lines += self.jump(ctx, ind)
+                continue
+            if ctx.get('may_return') and rng.random() < 0.05:
+                # an early return (nested in an `if`): a selection that contains it has to be refused
+                lines.append('%sif %s:' % (ind, self.cond(ctx['params'], ctx['tuples'])))
+                lines.append('%s    return (%s,)' % (ind, ', '.join(env[-3:])))
+                continue
             k = rng.random()
             loc = [x for x in env if x not in ro]
+            if depth > 0 and rng.random() < 0.07:
+                ls, env = self.while_stmt(env, ctx, ind, depth, in_loop)
+                lines += ls
+                continue
+            if rng.random() < 0.035:
+                ls, env = self.scope_stmt(env, ctx, ind, depth)
+                lines += ls
+                continue
             if k < 0.17 or not loc:
                 v = self.fresh()
                 lines.append('%s%s = %s' % (ind, v, self.expr(env)))
@@ -445,7 +464,7 @@ class FlowG:
                 ls, env = self.if_stmt(env, ctx, ind, depth, in_loop)
                 lines += ls
             elif k < 0.86 and depth > 0:
-                ls, env = self.for_stmt(env, ctx, ind, depth)
+                ls, env = self.for_stmt(env, ctx, ind, depth, in_loop)
                 lines += ls
             elif k < 0.94 and depth > 0 and ctx['params']:
                 ls, env = self.try_stmt(env, ctx, ind, depth, in_loop)
@@ -458,6 +477,84 @@ class FlowG:
                 lines.append('%s%s = %s' % (ind, v, self.expr(env)))
                 env.append(v)
         return lines, env
+
+    @staticmethod
+    def ro(ctx):
+        """names a generated statement never rebinds: parameters and the counters of while loops"""
+        return set(ctx['params']) | set(ctx.get('frozen', ()))
+
+    def jump(self, ctx, ind):
+        rng = self.rng
+        kw = rng.choice(['continue', 'break', 'continue', 'break'])
+        return ['%sif %s:' % (ind, self.cond(ctx['params'], ctx['tuples'])), '%s    %s' % (ind, kw)]
+
+    def loop_tail(self, env, ctx, ind, depth):
+        """the end of a loop body: sometimes one more nested loop, sometimes a jump behind everything else"""
+        rng = self.rng
+        lines = []
+        if depth - 1 > 0 and rng.random() < 0.3:
+            mk = self.while_stmt if rng.random() < 0.3 else self.for_stmt
+            ls, _ = mk(env, ctx, ind, depth - 1, True)
+            lines += ls
+        if rng.random() < 0.4:
+            lines += self.jump(ctx, ind)
+        return lines
+
+    def scope_stmt(self, env, ctx, ind, depth):
+        """a statement that opens a new scope: a lambda that is called at once, a local def (with a loop and a
+        jump of its own) that is called, a local class with one attribute"""
+        rng = self.rng
+        v = self.fresh()
+        k = rng.random()
+        if k < 0.45:
+            a = self.expr(env, 1)
+            return ['%s%s = (lambda a: a %s %d)(%s)' % (ind, v, rng.choice('+-*'), rng.randint(1, 5), a)], env + [v]
+        if k < 0.85:
+            self.scopes += 1
+            h = 'loc%d' % self.scopes
+            lines = ['%sdef %s(a):' % (ind, h)]
+            if rng.random() < 0.6:
+                lines += ['%s    for z9 in (1, 2, a):' % ind, '%s        if z9 > a:' % ind,
+                          '%s            %s' % (ind, rng.choice(['break', 'continue'])),
+                          '%s        a = a + z9' % ind]
+            lines.append('%s    return a %s %d' % (ind, rng.choice('+-*'), rng.randint(1, 5)))
+            lines.append('%s%s = %s(%s)' % (ind, v, h, self.expr(env, 1)))
+            return lines, env + [v]
+        self.scopes += 1
+        h = 'Loc%d' % self.scopes
+        lines = ['%sclass %s:' % (ind, h), '%s    kk = %d' % (ind, rng.randint(1, 9)),
+                 '%s%s = %s.kk + %s' % (ind, v, h, self._par(self.expr(env, 1)))]
+        return lines, env + [v]
+
+    def while_stmt(self, env, ctx, ind, depth, in_loop=False):
+        """`w = 0` / `while w < N:` / `w = w + 1` first in the body (the counter is never rebound elsewhere, a
+        `continue` cannot skip the increment), body with jumps, optional else"""
+        rng = self.rng
+        self.scopes += 1
+        w = 'w%d' % self.scopes
+        lines = ['%s%s = 0' % (ind, w)]
+        if not [x for x in env if x not in self.ro(ctx)]:
+            acc = self.fresh()
+            lines.append('%s%s = %s' % (ind, acc, self.expr(env, 0)))
+            env = env + [acc]
+        loc = [x for x in env if x not in self.ro(ctx)]
+        lines.append('%swhile %s < %d:' % (ind, w, rng.randint(1, 3)))
+        sub = ind + '    '
+        lines.append('%s%s = %s + 1' % (sub, w, w))
+        inner = dict(ctx, frozen=list(ctx.get('frozen', ())) + [w])
+        body_env = env + [w]
+        acc = rng.choice(loc)
+        lines.append('%s%s = %s + %s' % (sub, acc, acc, self._par(self.expr(body_env, 1))))
+        ls, _ = self.block(body_env, inner, sub, depth - 1, rng.randint(1, 3), True)
+        lines += ls
+        lines += self.loop_tail(body_env, inner, sub, depth)
+        if rng.random() < (0.35 if in_loop else 0.2):
+            lines.append('%selse:' % ind)
+            lines.append('%s    %s = %s' % (ind, rng.choice(loc), self.expr(env, 1)))
+            if in_loop and rng.random() < 0.6:
+                # the else clause of a loop is not part of that loop: a jump here belongs to the enclosing one
+                lines += self.jump(ctx, ind + '    ')
+        return lines, env + [w]
 
     def mention(self, env, v, depth=1):
         """an expression that reads `v`"""
@@ -482,9 +579,11 @@ class FlowG:
                 lines.append('%s%s = %s' % (ind, v, self.mention(inner, read or rebind)))
             else:
                 lines.append('%s%s = %s' % (ind, v, self.expr(inner)))
-        tgt = [x for x in inner if x != (read or rebind) and x not in ctx['params']]
+        tgt = [x for x in inner if x != (read or rebind) and x not in self.ro(ctx)]
         if not joint and (read or rebind) and tgt:
             lines.append('%s%s = %s' % (ind, rng.choice(tgt), self.mention(inner, read or rebind)))
+        if in_loop and rng.random() < 0.12:
+            lines.append('%s%s' % (ind, rng.choice(['break', 'continue'])))
         if not lines:
             lines.append('%spass' % ind)
         return lines
@@ -501,7 +600,7 @@ class FlowG:
             has_else = rng.random() < 0.3
         # a name that some branches bind anew (and then read) while the others read the value it had in
         # front of the statement; which branch comes first in the text varies
-        loc = [x for x in env if x not in ctx['params']]
+        loc = [x for x in env if x not in self.ro(ctx)]
         shared = rng.choice(loc) if loc and rng.random() < 0.5 else None
         roles = [rng.random() < 0.5 for _ in range(3)]
         if shared is not None and not any(roles):
@@ -529,7 +628,7 @@ class FlowG:
             after = after + [v]
         return lines, after
 
-    def for_stmt(self, env, ctx, ind, depth):
+    def for_stmt(self, env, ctx, ind, depth, in_loop=False):
         rng = self.rng
         lines = []
         self.loopvars += 1
@@ -547,11 +646,11 @@ class FlowG:
         pre = rng.random() < 0.35
         if pre:
             lines.append('%s%s = %s' % (ind, i, self.expr(env, 0)))
-        if not [x for x in env if x not in ctx['params']] or rng.random() < 0.4:
+        if not [x for x in env if x not in self.ro(ctx)] or rng.random() < 0.4:
             acc = self.fresh()
             lines.append('%s%s = %s' % (ind, acc, self.expr(env, 0)))
             env = env + [acc]
-        loc = [x for x in env if x not in ctx['params']]
+        loc = [x for x in env if x not in self.ro(ctx)]
         lines.append('%sfor %s in %s:' % (ind, i, it))
         sub = ind + '    '
         body_env = env + [i]
@@ -569,12 +668,16 @@ class FlowG:
             t = self.fresh()
             body.append('%s%s = %s + %s' % (sub, t, acc, self._par(self.expr(body_env, 1))))
             body.append('%s%s = %s * 2 %% 1000' % (sub, acc, t))
-        ls, _ = self.block(body_env, ctx, sub, depth - 1, rng.randint(0 if body else 1, 2), True)
+        ls, _ = self.block(body_env, ctx, sub, depth - 1, rng.randint(0 if body else 1, 3), True)
         body += ls
+        body += self.loop_tail(body_env, ctx, sub, depth)
         lines += body
-        if rng.random() < 0.15:
+        if rng.random() < (0.35 if in_loop else 0.15):
             lines.append('%selse:' % ind)
             lines.append('%s    %s = %s' % (ind, rng.choice(loc), self.expr(env, 1)))
+            if in_loop and rng.random() < 0.6:
+                # the else clause of a loop is not part of that loop: a jump here belongs to the enclosing one
+                lines += self.jump(ctx, ind + '    ')
         after = list(env)
         if pre or not maybe_empty:
             if rng.random() < 0.6:
@@ -590,22 +693,26 @@ class FlowG:
         lines.append('%stry:' % ind)
         pre, inner = self.block(env, ctx, sub, 0, rng.randint(0, 1), in_loop) if env else ([], env)
         lines += pre
+        if in_loop and rng.random() < 0.25:
+            lines += self.jump(ctx, sub)
         lines.append('%s%s = %s // %s' % (sub, v, self._par(self.expr(inner, 1)), p))
         if rng.random() < 0.4:
             # after the raising point only names that are bound in front of the statement are rebound
-            x = rng.choice([y_ for y_ in inner if y_ not in ctx['params']] + [v])
+            x = rng.choice([y_ for y_ in inner if y_ not in self.ro(ctx)] + [v])
             lines.append('%s%s = %s' % (sub, x, self.expr(inner + [v], 1)))
         lines.append('%sexcept ZeroDivisionError:' % ind)
         hb, _ = self.block(env, ctx, sub, 0, rng.randint(0, 1), in_loop) if env else ([], env)
         lines += hb
+        if in_loop and rng.random() < 0.15:
+            lines += self.jump(ctx, sub)
         lines.append('%s%s = %s' % (sub, v, self.expr(env, 1)))
         r = rng.random()
         if r < 0.2:
             lines.append('%selse:' % ind)
             lines.append('%s%s = %s + 1' % (sub, v, v))
-        elif r < 0.4 and [x for x in env if x not in ctx['params']]:
+        elif r < 0.4 and [x for x in env if x not in self.ro(ctx)]:
             lines.append('%sfinally:' % ind)
-            lines.append('%s%s = %s' % (sub, rng.choice([x for x in env if x not in ctx['params']]),
+            lines.append('%s%s = %s' % (sub, rng.choice([x for x in env if x not in self.ro(ctx)]),
                                         self.expr(env, 1)))
         return lines, env + [v]
 
@@ -616,7 +723,7 @@ class FlowG:
         tuples = ['t'] if rng.random() < 0.6 else []
         sig = ([] if not method else ['self']) + params + tuples
         lines = ['%sdef %s(%s):' % (ind, name, ', '.join(sig))]
-        ctx = {'params': params, 'tuples': tuples}
+        ctx = {'params': params, 'tuples': tuples, 'may_return': True}
         env = list(params)
         sub = ind + '    '
         # one or two locals in front, so that selections have something bound before them
